@@ -339,6 +339,11 @@ func (g *aspGen) funcDef(ind int) {
 	late := false
 	for i := 0; i < np; i++ {
 		t := g.anyType()
+		if i >= np-f.ndef && g.o.ExclLateDefault && hasDict(t) {
+			// a dict default is a fresh object per call in asp but one shared object in CPython
+			g.excluded("late-default")
+			t = AspListOf(tInt)
+		}
 		p := avar{name: g.name("p"), t: t, aliased: true, ln: -1, nonASCII: true}
 		s := p.name
 		if g.chance(30, "annot") {
@@ -360,6 +365,18 @@ func (g *aspGen) funcDef(ind int) {
 				}
 			} else {
 				def = g.literal(t, 1)
+			}
+			if t.K == AspList && !def.constLit && g.o.ExclLateDefault {
+				// a list default that asp does not fold (e.g. containing "- 1") is rebuilt on every call,
+				// CPython shares it between calls
+				g.excluded("late-default")
+				for try := 0; try < 4 && !def.constLit; try++ {
+					def = g.literal(t, 1)
+				}
+				if !def.constLit {
+					def = atom("[]")
+					def.constLit, def.fresh, def.ln = true, true, 0
+				}
 			}
 			if strings.Contains(s, ":") {
 				s += " = " + arg(def)
